@@ -1,13 +1,13 @@
 package exec
 
 import (
-	"time"
 	"encoding/binary"
 	"fmt"
 	"go/token"
 	"go/types"
 	"sort"
 	"strings"
+	"time"
 
 	"gosmt/sym"
 
@@ -108,7 +108,7 @@ type Machine struct {
 	NTrivial, NAsserts               int
 	Trace2                           bool
 	Params                           map[string]int64 // concrete scenario parameters (vParam)
-	ClockKeys                        bool // keep alternatives with different local clocks apart (canonical event names are shared across interleavings)
+	ClockKeys                        bool             // keep alternatives with different local clocks apart (canonical event names are shared across interleavings)
 	holdDepth                        int
 	lastChosen                       map[string]int
 	PruneBranches                    bool
